@@ -93,6 +93,13 @@ class Variants:
         self.mixed_sk = new()
         self.aa_mixed = C(pki.forge_cert(mixed_tbs, self.mixed_sk, z.root.certificate, z.sk(z.root)), z.root)
         self.mixed_keys = [new(), new()]
+        # an AA that may issue {36,37} and itself holds application permission 1234 (legitimately, from the 'all' root)
+        self.aa_app_sk = new()
+        self.aa_app = C(pki.forge_cert(pki.tbs_ca("aa-app.vf", [36, 37], 1, app=[1234]), self.aa_app_sk, z.root.certificate, z.sk(z.root)), z.root)
+        self.aa_app_keys = [new(), new()]
+        v["g_aa_with_own_app_permission"] = self.aa_app
+        v["f_at1234_under_issuer_app_permission"] = C(pki.forge_cert(pki.tbs_at([1234]), self.aa_app_keys[0], self.aa_app.certificate, self.aa_app_sk), self.aa_app)
+        v["g_at36_under_aa_with_app"] = C(pki.forge_cert(pki.tbs_at([36]), self.aa_app_keys[1], self.aa_app.certificate, self.aa_app_sk), self.aa_app)
         v["g_aa_mixed_budget"] = self.aa_mixed
         v["f_at36_under_exhausted_entry"] = C(pki.forge_cert(pki.tbs_at([36]), self.mixed_keys[0], self.aa_mixed.certificate, self.mixed_sk), self.aa_mixed)
         v["g_at37_under_live_entry"] = C(pki.forge_cert(pki.tbs_at([37]), self.mixed_keys[1], self.aa_mixed.certificate, self.mixed_sk), self.aa_mixed)
@@ -102,6 +109,8 @@ class Variants:
                      "f_lookalike_issuer": k[5], "f_issued_by_at": k[6], "f_self_signed_at": k[9]}
         for i, a in enumerate(z.ats):
             self.keys["g_at%d" % i] = z.sk(a)
+        self.keys["f_at1234_under_issuer_app_permission"] = self.aa_app_keys[0]
+        self.keys["g_at36_under_aa_with_app"] = self.aa_app_keys[1]
         self.keys["f_at36_under_exhausted_entry"] = self.mixed_keys[0]
         self.keys["g_at37_under_live_entry"] = self.mixed_keys[1]
         for n, a in (("g_at36", z.at36), ("g_at_expired", z.at_expired), ("g_at_under_all", self.at_under_all), ("g_at_under_sub", self.at_under_sub),
@@ -240,6 +249,9 @@ def issuing_cases():
     subj = [("ca", "all")] + [("ca", s) for s in SUBSETS] + [("at", s) for s in SUBSETS] + [("ca_app", s) for s in ([36], [36, 1234])]
     for ip, mcl, (kind, sp), depth in itertools.product(issuer_perms, [0, 1, 2, 3], subj, [1, 2]):
         yield {"issuer_perms": ip, "min_chain": mcl, "kind": kind, "subject": sp, "depth": depth}
+    # issuers that hold application permissions of their own (which authorise nothing about what they may issue)
+    for ip, app, (kind, sp), depth in itertools.product(SUBSETS[:3], ([1234], [36, 1234], [999]), subj, [1, 2]):
+        yield {"issuer_perms": ip, "min_chain": 2, "kind": kind, "subject": sp, "depth": depth, "issuer_app": app}
 
 
 def run_issuing(case):
@@ -249,10 +261,14 @@ def run_issuing(case):
     mk = OwnCertificate.initialize_certificate
     vs = []
     try:
-        issuer = mk(B, pki.tbs_ca("r.vf", case["issuer_perms"], case["min_chain"]))
+        iapp = case.get("issuer_app")
+        issuer = mk(B, pki.tbs_ca("r.vf", case["issuer_perms"], case["min_chain"], app=iapp if case["depth"] == 1 else None))
         if case["depth"] == 2:
-            # an intermediate CA asking for the same permissions, issued by the root above
-            issuer = mk(B, pki.tbs_ca("i.vf", case["issuer_perms"], 1), issuer)
+            # an intermediate CA asking for the same permissions, issued by the root above (an 'all' root when the intermediate
+            # carries application permissions of its own, so that the intermediate itself is legitimate)
+            if iapp:
+                issuer = mk(B, pki.tbs_ca("r.vf", "all", 3))
+            issuer = mk(B, pki.tbs_ca("i.vf", case["issuer_perms"], 1, app=iapp), issuer)
         if case["kind"] == "at":
             tbs = pki.tbs_at(case["subject"])
         elif case["kind"] == "ca_app":
@@ -295,6 +311,9 @@ def wrongly_issued_cases():
     for iss in issuers:
         for kind, sp in subj:
             yield {"issuer_entries": [[ps, b] for ps, b in iss], "kind": kind, "subject": sp}
+    for iss in issuers[:12]:
+        for kind, sp in subj + [("ca", [1234])]:
+            yield {"issuer_entries": [[ps, b] for ps, b in iss], "kind": kind, "subject": sp, "issuer_app": [1234]}
 
 
 def run_wrongly_issued(case):
@@ -306,7 +325,7 @@ def run_wrongly_issued(case):
     for ps, b in case["issuer_entries"]:
         sp = ("all", None) if ps == "all" else ("explicit", [{"psid": x} for x in ps])
         ent.append({"subjectPermissions": sp, "minChainLength": b, "chainLengthRange": 0, "eeType": (b"\x00", 1)})
-    itbs = pki.tbs_ca("wi.vf", [36], 1)
+    itbs = pki.tbs_ca("wi.vf", [36], 1, app=case.get("issuer_app"))
     itbs["certIssuePermissions"] = ent
     ks = _WI_KEYS or _WI_KEYS.extend([ecdsa.SigningKey.generate(curve=ecdsa.NIST256p) for _ in range(2)]) or _WI_KEYS
     issuer = Certificate(pki.forge_cert(itbs, ks[0], None, ks[0]), None)
